@@ -30,8 +30,8 @@ def rel(a, b, floor=1e-6):
     return float((np.abs(a - b) / sc).max())
 
 
-def mats(d, N=None, what=('k0', 'kG0', 'kM')):
-    p = gen.build_panel(d)
+def mats(d, N=None, what=('k0', 'kG0', 'kM'), auto=False):
+    p = gen.build_panel(d, explicit_model=not auto)      # auto: the class picks the model from r / alphadeg itself
     if N is not None:
         p.Nxx, p.Nyy, p.Nxy = N
     out = {}
@@ -234,11 +234,20 @@ def rel_similarity(c, rng, tier, N):
     fl = restrained_flags(rng)
     d = gen.panel_desc(rng, model=str(rng.choice(['plate', 'cpanel', 'kpanel'])), mmax=6, place=False, sub=False, fl=fl)
     d['m'] = max(d['m'], 5); d['n'] = max(d['n'], 5)
-    s = float(10 ** rng.uniform(-1, 1)); e = float(10 ** rng.uniform(-2, 2)); q = float(10 ** rng.uniform(-2, 2))
-    c.desc.update(panel=d, s=s, e=e, q=q)
+    # other unit systems: millimetres / micrometres / kilometres, MPa / GPa, tonne-based densities ... (nothing in the plumbing may
+    # depend on an absolute magnitude); half of the cases leave the model choice to the class
+    if rng.random() < 0.5:
+        s = float(10 ** rng.uniform(-1, 1)); e = float(10 ** rng.uniform(-2, 2)); q = float(10 ** rng.uniform(-2, 2))
+    else:
+        s = float(10 ** rng.uniform(-3, 4)); e = float(10 ** rng.uniform(-9, 3)); q = float(10 ** rng.uniform(-12, 3))
+    auto = bool(rng.random() < 0.5) and d['model'] != 'plate_w'
+    c.desc.update(panel=d, s=s, e=e, q=q, auto_model=auto)
+    c.tag('auto_model' if auto else 'explicit_model')
     x = scaled(d, s, e, q)
-    A, _ = mats(d, N)
-    B, _ = mats(x, N)
+    A, pa_ = mats(d, N, auto=auto)
+    B, pb_ = mats(x, N, auto=auto)
+    if auto:
+        c.expect('the class picks the same model in both unit systems', pa_.model == pb_.model, '%s vs %s' % (pa_.model, pb_.model))
     la = spectrum(A['k0'], G=A['kG0']); lb_ = spectrum(B['k0'], G=B['kG0'])
     k = min(len(la), len(lb_))
     cond = np.linalg.cond(A['k0'][np.ix_(eig.active_set(A['k0']), eig.active_set(A['k0']))])
